@@ -1,7 +1,9 @@
 package props
 
 import (
+	"bytes"
 	"fmt"
+	"io"
 	"reflect"
 	"sync"
 
@@ -42,16 +44,50 @@ type c19Result struct {
 // c19Inst holds the long-lived instances of one goroutine.
 type c19Inst struct{ u *gotype.Unfolder }
 
-func c19Run(c *C19Case, j C19Job, types []reflect.Type, vals []reflect.Value, inst *c19Inst) c19Result {
+// c19Shared holds the documents that were encoded ONCE before the goroutines
+// start: all goroutines of a program that use the same stream and format parse
+// the very same byte slice (input is read-only for every parser entry point).
+type c19Shared struct {
+	data     map[string][]byte
+	pristine map[string][]byte
+}
+
+func c19Run(c *C19Case, j C19Job, types []reflect.Type, vals []reflect.Value, inst *c19Inst, shared *c19Shared, g int) c19Result {
 	if len(j.Route) > 6 && j.Route[:6] == "codec:" {
 		cd := codecs[j.Route[6:]]
 		evs := c.Streams[j.Item]
-		data, eo := encodeStream(cd, EncOpts{EscapeHTML: true, IgnoreInvalidFloat: true}, evs)
+		// every goroutine encodes on its own instance ...
+		own, eo := encodeStream(cd, EncOpts{EscapeHTML: true, IgnoreInvalidFloat: true}, evs)
 		if eo.Panicked() || eo.Err != nil {
 			return c19Result{out: eo.String()}
 		}
+		// ... and parses the SHARED copy through one of the entry points
+		data := own
+		if shared != nil {
+			if d, ok := shared.data[fmt.Sprintf("%d/%s", j.Item, cd.Name)]; ok {
+				data = d
+			}
+		}
 		rec := &model.Recorder{}
-		po := guard(func() error { return cd.Parse(data, rec) })
+		po := guard(func() error {
+			switch g % 4 {
+			case 1:
+				dec := cd.NewBytesDecoder(data, rec)
+				err := dec.Next()
+				if err == nil {
+					if err2 := dec.Next(); err2 != io.EOF {
+						return fmt.Errorf("second Next: %v", err2)
+					}
+				}
+				return err
+			case 2:
+				_, err := cd.ParseReader(bytes.NewReader(data), rec)
+				return err
+			case 3:
+				return cd.NewParser(rec).(interface{ Parse([]byte) error }).Parse(data)
+			}
+			return cd.Parse(data, rec)
+		})
 		if po.Panicked() || po.Err != nil {
 			return c19Result{out: po.String(), raw: data}
 		}
@@ -123,6 +159,20 @@ func checkC19(ci any, info *CaseInfo) string {
 	if rep <= 0 {
 		rep = 1
 	}
+	inputs := &c19Shared{data: map[string][]byte{}, pristine: map[string][]byte{}}
+	for _, j := range c.Jobs {
+		if len(j.Route) > 6 && j.Route[:6] == "codec:" {
+			cd := codecs[j.Route[6:]]
+			key := fmt.Sprintf("%d/%s", j.Item, cd.Name)
+			if _, ok := inputs.data[key]; !ok {
+				d, eo := encodeStream(cd, EncOpts{EscapeHTML: true, IgnoreInvalidFloat: true}, c.Streams[j.Item])
+				if !eo.Panicked() && eo.Err == nil {
+					inputs.data[key] = d
+					inputs.pristine[key] = append([]byte{}, d...)
+				}
+			}
+		}
+	}
 	// concurrent run first: the first use of every (fresh) type happens under contention
 	results := make([][]c19Result, G)
 	var start, done sync.WaitGroup
@@ -134,15 +184,20 @@ func checkC19(ci any, info *CaseInfo) string {
 			start.Wait()
 			inst := &c19Inst{}
 			for r := 0; r < rep; r++ {
-				results[g] = append(results[g], c19Run(c, c.Jobs[g], types, vals, inst))
+				results[g] = append(results[g], c19Run(c, c.Jobs[g], types, vals, inst, inputs, g))
 			}
 		}(g)
 	}
 	start.Done()
 	done.Wait()
+	for k, d := range inputs.data {
+		if !bytes.Equal(d, inputs.pristine[k]) {
+			return fmt.Sprintf("a parser modified its input: document %s reads %q after the run, %q before", k, trunc(d), trunc(inputs.pristine[k]))
+		}
+	}
 	// sequential reference
 	for g := 0; g < G; g++ {
-		ref := c19Run(c, c.Jobs[g], types, vals, nil)
+		ref := c19Run(c, c.Jobs[g], types, vals, nil, nil, 0)
 		for r, got := range results[g] {
 			if got.out != ref.out {
 				return fmt.Sprintf("goroutine %d (job %+v), repetition %d: outcome %q under concurrency, %q when run alone", g, c.Jobs[g], r, got.out, ref.out)
@@ -233,7 +288,7 @@ func drawC19(t *rapid.T) any {
 func init() {
 	register(&Property{
 		ID:            "C19",
-		Rule:          "programs of G goroutines (quick: 2..8, thorough: 2..16) released by a barrier, each running its own pipeline — Fold -> Unfold directly or through the json/ubjson/cborl encoder and parser, or encoder -> parser over a shared event stream — 1..3 times on its OWN instances (half of the goroutines keep one unfolder, created without target and recycled with Reset + SetTarget before every document) over SHARED input values and SHARED freshly generated reflect.StructOf types (first use under contention) plus pool types incl. the self-referential ones; half of the programs take a FRESH member of a family of 144 self-referential generic types and let the goroutines use R, *R, []R and struct{P *R; S []R} at the same time (first use of a recursive type under contention); a third of the others use a type with a custom UnfoldState (Expander, stateful or processing user unfolder) as slice element, map value and struct field in all goroutines; the binary is built with -race (GORACE=halt_on_error): any race report, 'concurrent map' fatal error or crash is a violation; differential: every goroutine's outcome and value equal those of the same job run alone afterwards. Schedules are sampled by the Go scheduler (GOMAXPROCS 4, varied in the thorough tier), not enumerated. non-trivial = at least two goroutines share an item (type or stream) and route; distinct by case hash",
+		Rule:          "programs of G goroutines (quick: 2..8, thorough: 2..16) released by a barrier, each running its own pipeline — Fold -> Unfold directly or through the json/ubjson/cborl encoder and parser, or encoder -> parser over a shared event stream, where all goroutines parse the SAME byte slice (encoded once beforehand; entry points Parse, NewBytesDecoder, ParseReader, Parser.Parse by goroutine index; the bytes must be unchanged afterwards) — 1..3 times on its OWN instances (half of the goroutines keep one unfolder, created without target and recycled with Reset + SetTarget before every document) over SHARED input values and SHARED freshly generated reflect.StructOf types (first use under contention) plus pool types incl. the self-referential ones; half of the programs take a FRESH member of a family of 144 self-referential generic types and let the goroutines use R, *R, []R and struct{P *R; S []R} at the same time (first use of a recursive type under contention); a third of the others use a type with a custom UnfoldState (Expander, stateful or processing user unfolder) as slice element, map value and struct field in all goroutines; the binary is built with -race (GORACE=halt_on_error): any race report, 'concurrent map' fatal error or crash is a violation; differential: every goroutine's outcome and value equal those of the same job run alone afterwards. Schedules are sampled by the Go scheduler (GOMAXPROCS 4, varied in the thorough tier), not enumerated. non-trivial = at least two goroutines share an item (type or stream) and route; distinct by case hash",
 		New:           func() any { return &C19Case{} },
 		Draw:          drawC19,
 		Check:         checkC19,
